@@ -23,6 +23,7 @@ import (
 	"verif/harness/gen/lookups"
 	"verif/harness/guard"
 	"verif/harness/ref/refsfnt"
+	"verif/harness/ref/refshape"
 	"verif/harness/stats"
 )
 
@@ -242,6 +243,46 @@ func mappedRunes(f *sfnt.Font) []rune {
 	return res
 }
 
+// refPipeline is the same composition with the harness's reference shaper
+// in place of gtab.Context.Apply; ok=false if the shaping falls into the
+// region the reference model calls undefined.
+func refPipeline(f *sfnt.Font, s string, lang language.Tag, gsubF, gposF map[string]bool) (seq []glyph.Info, ok bool) {
+	best, err := f.CMapTable.GetBest()
+	if err != nil {
+		return nil, false
+	}
+	for _, r := range s {
+		seq = append(seq, glyph.Info{GID: best.Lookup(r), Text: []rune{r}})
+	}
+	if f.Gsub != nil {
+		if gsubF == nil {
+			gsubF = gtab.GsubDefaultFeatures
+		}
+		res := refshape.Apply(f.Gsub.LookupList, f.Gdef, f.Gsub.FindLookups(lang, gsubF), seq)
+		if len(res.Undefined) > 0 {
+			return nil, false
+		}
+		seq = res.Seq
+	}
+	for i := range seq {
+		isMark := f.Gdef != nil && f.Gdef.GlyphClass != nil && f.Gdef.GlyphClass[seq[i].GID] == 3
+		if !isMark {
+			seq[i].Advance = funit.Int16(f.GlyphWidth(seq[i].GID))
+		}
+	}
+	if f.Gpos != nil {
+		if gposF == nil {
+			gposF = gtab.GposDefaultFeatures
+		}
+		res := refshape.Apply(f.Gpos.LookupList, f.Gdef, f.Gpos.FindLookups(lang, gposF), seq)
+		if len(res.Undefined) > 0 {
+			return nil, false
+		}
+		seq = res.Seq
+	}
+	return seq, true
+}
+
 // reference pipeline: composition of the library's documented stages.
 func pipeline(f *sfnt.Font, s string, lang language.Tag, gsubF, gposF map[string]bool) ([]glyph.Info, error) {
 	best, err := f.CMapTable.GetBest()
@@ -329,6 +370,14 @@ func TestC15Layout(t *testing.T) {
 			}
 			if infoStr(got) != infoStr(want) {
 				t.Fatalf("Layout(%q) = %s\n  stage composition gives %s\n%s", s, infoStr(got), infoStr(want), ctx())
+			}
+			if ref, ok := refPipeline(f, s, lang, gsubF, gposF); ok {
+				if infoStr(got) != infoStr(ref) {
+					t.Fatalf("Layout(%q) = %s\n  reference pipeline (reference shaper) gives %s\n%s", s, infoStr(got), infoStr(ref), ctx())
+				}
+				stats.Label("layout", "judged-by-reference-shaper")
+			} else {
+				stats.Label("layout", "reference-shaper-abstains")
 			}
 			// fresh layouter gives the same (no state carried between calls)
 			l2, _ := f.NewLayouter(lang, gsubF, gposF)
